@@ -17,6 +17,19 @@ use serde_json::{Value, json};
 use std::collections::HashSet;
 use vh_common::{Args, Report, Rng, hex, run_driver};
 
+/// record an implementation-side oracle failure; failures of one (non-null) class are listed at most three
+/// times so that the report's cap is never filled by already-classified findings
+fn oracle_fail(report: &mut Report, v: Value) {
+    if let Some(c) = v.get("class").and_then(|c| c.as_str()) {
+        let key = format!("oracle_failures_class_{c}");
+        report.count(&key);
+        if report.distribution.get(&key).copied().unwrap_or(0) > 3 {
+            return;
+        }
+    }
+    report.oracle_failure(v);
+}
+
 pub const STD_LEVELS: &[(&str, u8)] = &[("Lua51", 1), ("Lua52", 2), ("Lua53", 3), ("Lua54", 4), ("Lua55", 5)];
 
 pub fn level_of(name: &str) -> LuaLanguageLevel {
@@ -220,7 +233,7 @@ fn check_exprs(cases: &[ExprCase], report: &mut Report, r55: &mut Ref55, seen: &
         let real = match vh_common::catch(|| real_expr(&c.text, level)) {
             Ok(r) => r,
             Err(e) => {
-                report.oracle_failure(json!({"input": expr_input(c), "what": format!("parser panicked: {e}"), "class": null}));
+                oracle_fail(report, json!({"input": expr_input(c), "what": format!("parser panicked: {e}"), "class": null}));
                 continue;
             }
         };
@@ -257,10 +270,10 @@ fn check_exprs(cases: &[ExprCase], report: &mut Report, r55: &mut Ref55, seen: &
         if let Some(want) = &c.intended {
             let erased = if real.exprs.len() == 1 { exprgen::render(&real.exprs[0], true) } else { rendered.clone() };
             if real.errors != 0 {
-                report.oracle_failure(json!({"input": expr_input(c), "class": null,
+                oracle_fail(report, json!({"input": expr_input(c), "class": null,
                     "what": format!("valid {} expression reported as syntax error: {}", c.level, real.first_error)}));
             } else if &erased != want {
-                report.oracle_failure(json!({"input": expr_input(c), "class": null,
+                oracle_fail(report, json!({"input": expr_input(c), "class": null,
                     "what": format!("expression groups as {erased}, the manual's precedence gives {want}")}));
             }
         }
@@ -271,7 +284,7 @@ fn check_exprs(cases: &[ExprCase], report: &mut Report, r55: &mut Ref55, seen: &
                 Ok(()) => {
                     report.count("expr_ref55_accepts");
                     if real.errors != 0 {
-                        report.oracle_failure(json!({"input": expr_input(c), "class": null,
+                        oracle_fail(report, json!({"input": expr_input(c), "class": null,
                             "what": format!("the Lua 5.5 reference compiler accepts it, the parser reports: {}", real.first_error)}));
                     }
                 }
@@ -280,7 +293,7 @@ fn check_exprs(cases: &[ExprCase], report: &mut Report, r55: &mut Ref55, seen: &
                     if semantic_rejection(&msg) {
                         report.count("expr_ref55_semantic_rejection_skipped");
                     } else if real.errors == 0 {
-                        report.oracle_failure(json!({"input": expr_input(c), "class": null,
+                        oracle_fail(report, json!({"input": expr_input(c), "class": null,
                             "what": format!("the Lua 5.5 reference compiler rejects it ({msg}), the parser reports no syntax error")}));
                     }
                 }
@@ -460,7 +473,7 @@ fn check_nums(cases: &[NumCase], report: &mut Report, diag: &mut Diag, seen: &mu
             Some(true) => {
                 let want_kind = if c.kind == "Int" { LuaTokenKind::TkInt } else { LuaTokenKind::TkFloat };
                 if first.kind != want_kind || first.range.length != c.len || first_errs != 0 {
-                    report.oracle_failure(json!({"input": num_input(c), "class": null,
+                    oracle_fail(report, json!({"input": num_input(c), "class": null,
                         "what": format!("numeral {:?} of the manual's grammar lexed as {:?} of {} bytes with {} error(s); expected one {:?} token of {} bytes, no error",
                             &c.text[..c.len], first.kind, first.range.length, first_errs, want_kind, c.len)}));
                 }
@@ -470,7 +483,7 @@ fn check_nums(cases: &[NumCase], report: &mut Report, diag: &mut Diag, seen: &mu
                 let d = diag.syntax_errors(c.level, &src);
                 if d.is_empty() {
                     let class = malformed_class(&c.text);
-                    report.oracle_failure(json!({"input": num_input(c), "class": class,
+                    oracle_fail(report, json!({"input": num_input(c), "class": class,
                         "what": format!("malformed numeral {:?} (rejected by the reference lexer: malformed number) produces no syntax-error diagnostic at {}", c.text, c.level)}));
                 }
             }
@@ -645,10 +658,10 @@ fn check_strs(cases: &[StrCase], report: &mut Report, diag: &mut Diag, r55: &mut
                 }
             }
             if valid && !d.is_empty() {
-                report.oracle_failure(json!({"input": str_input(c), "class": string_class(&c.text, c.level),
+                oracle_fail(report, json!({"input": str_input(c), "class": string_class(&c.text, c.level),
                     "what": format!("valid {} literal ({}) reported as syntax error: {}", c.level, c.why, d[0])}));
             } else if !valid && d.is_empty() {
-                report.oracle_failure(json!({"input": str_input(c), "class": string_class(&c.text, c.level),
+                oracle_fail(report, json!({"input": str_input(c), "class": string_class(&c.text, c.level),
                     "what": format!("invalid {} literal ({}) produces no syntax-error diagnostic", c.level, c.why)}));
             }
         }
@@ -705,7 +718,7 @@ fn check_program(level: &'static str, text: &str, expect: &str, why: &str, use_d
     let mut errors = match parsed {
         Ok(e) => e,
         Err(p) => {
-            report.oracle_failure(json!({"input": prog_input(level, text, expect), "what": format!("parser panicked: {p}"), "class": null}));
+            oracle_fail(report, json!({"input": prog_input(level, text, expect), "what": format!("parser panicked: {p}"), "class": null}));
             return;
         }
     };
@@ -751,14 +764,14 @@ fn check_program(level: &'static str, text: &str, expect: &str, why: &str, use_d
         "accept" => {
             report.count(&format!("program_valid_{level}"));
             if let Some(e) = errors.first() {
-                report.oracle_failure(json!({"input": prog_input(level, text, "accept"), "class": null,
+                oracle_fail(report, json!({"input": prog_input(level, text, "accept"), "class": null,
                     "what": format!("valid {level} program ({why}) reported as syntax error: {e}")}));
             }
         }
         "reject" => {
             report.count(&format!("program_invalid_{level}"));
             if errors.is_empty() {
-                report.oracle_failure(json!({"input": prog_input(level, text, "reject"), "class": null,
+                oracle_fail(report, json!({"input": prog_input(level, text, "reject"), "class": null,
                     "what": format!("invalid {level} program ({why}) produces no syntax error")}));
             }
         }
